@@ -6,7 +6,7 @@
     run alone also SUCCEEDS from every reachable state is established by the
     frozen-peer exploration (vlib/c06.py), not by a theorem. *)
 From Coq Require Import List NArith ZArith String Bool.
-From Kismet Require Import FS.Fs FS.Prog Ops.Ops Spec.Wp Spec.CountMon Conc.Pool Conc.PoolProofs Proofs.PoolLift.
+From Kismet Require Import Gen.Constants Gen.Agree FS.Fs FS.Prog Ops.Ops Spec.Wp Spec.CountMon Conc.Pool Conc.PoolProofs Proofs.PoolLift.
 Import ListNotations.
 Local Open Scope Z_scope.
 
@@ -55,6 +55,12 @@ Theorem C06_no_lock_in_vocabulary : forall c : call,
   | CRename _ _ | CLink _ _ | CUnlink _ | CMkdir _ | COpenDir _ | CReadDir _ | CCloseDir _ => True
   end.
 Proof. intros c. destruct c; exact I. Qed.
+
+(** The list of blocking constructs (Mutex, RwLock, Condvar, Barrier, Once, OnceLock, sleep,
+    park, spin_loop, yield_now, flock/lockf/F_SETLK, join, channels) found in the non-test
+    source of the library, regenerated from /repo on every run, is empty. *)
+Theorem C06_source_has_no_blocking_primitive : Constants.BLOCKING_PRIMITIVES = nil.
+Proof. exact no_blocking_primitive. Qed.
 
 (** Non-vacuity: two participants looking up the same key of a populated
     directory, interleaved call by call; both finish, each with 3 calls. *)
